@@ -44,6 +44,8 @@ def none_patterns(kind, tier):
     twos = list(itertools.combinations(lig, 2))
     if tier == "quick":
         pats += ([] if kind == "Oct" else ones[-1:] + twos[:1])
+    elif kind == "Oct":
+        pats += ones + twos[:3]
     else:
         pats += ones + twos
     out = []
@@ -344,7 +346,8 @@ def plan(tier, seed):
     if tier == "quick":
         pre.append("kind != 3 or (pat == 0 and (k % 7 == 0 or k < 48))")
     else:
-        pre.append("kind != 3 or pat < 8")
+        pre.append("kind != 3 or (pat < 4 and k % 3 == 0)")
+        pre.append("kind != 2 or pat < 8")
         pre.append("pat < (11, 11, 16, 22, 11, 11)[kind]")
     units.append(Sel(name="hash", func="vp.props.C04:hash_body", params=params, pre=pre, shard_by=["kind"], timeout=1500,
                      nontrivial="k > 0", min_shard=200))
